@@ -47,7 +47,8 @@ def make_target(lab):
             return x
 
         def gen(self, n):
-            return (i for i in range(n))
+            # (any iterator may be a streamed result: a generator, the iterator of a list, a map object)
+            return rotate("genkind", [lambda: (i for i in range(n)), lambda: iter(list(range(n))), lambda: map(int, range(n))])()
 
         def boom(self, kind):
             if kind == "plain":
